@@ -32,6 +32,8 @@ pub enum Edit {
     Add { off: usize, len: usize, delta: i64 },
     /// set the little-endian integer field at `off`
     Set { off: usize, len: usize, value: u64 },
+    /// the whole byte string is replaced
+    Replace(Vec<u8>),
 }
 
 pub struct MutSpace {
@@ -75,7 +77,13 @@ impl MutSpace {
             }
         }
         let header: Vec<usize> = layout.fields.iter().enumerate().filter(|(_, f)| f.len == 1 && matches!(f.comp, "context" | "options" | "proof") && matches!(f.kind, FKind::Count | FKind::Enum | FKind::Len)).map(|(i, _)| i).collect();
-        let scripts = if fams.contains(&Fam::Consistent) { consistent_scripts(&base, &layout) } else { vec![] };
+        let scripts = if fams.contains(&Fam::Consistent) {
+            let mut sc = consistent_scripts(&base, &layout);
+            sc.extend(extension_scripts(&base, &layout, pm1.len(), ext));
+            sc
+        } else {
+            vec![]
+        };
         let l = base.len() as u64;
         let mut f = vec![];
         for fam in fams {
@@ -321,6 +329,7 @@ impl MutSpace {
                 let mut es = edits.clone();
                 es.sort_by_key(|e| std::cmp::Reverse(match e {
                     Edit::Splice { off, .. } | Edit::Add { off, .. } | Edit::Set { off, .. } => *off,
+                    Edit::Replace(_) => usize::MAX,
                 }));
                 for e in es {
                     match e {
@@ -336,6 +345,7 @@ impl MutSpace {
                             write_le(&mut b, off, len, nv as u64);
                         },
                         Edit::Set { off, len, value } => write_le(&mut b, off, len, value),
+                        Edit::Replace(nb) => b = nb,
                     }
                 }
                 label = l.clone();
@@ -595,6 +605,59 @@ pub fn consistent_scripts(b: &[u8], lay: &Layout) -> Vec<(String, Vec<Edit>)> {
             }
             out.push(("queries: last row of every query table removed (unique query count - 1)".into(), rm));
             out.push(("queries: last row of every query table repeated (unique query count + 1)".into(), dup));
+        }
+    }
+    out
+}
+
+
+/// The proof re-encoded for another extension degree: the extension byte is changed and EVERY extension-field
+/// element of the proof (auxiliary and constraint query values, out-of-domain frames, FRI layer values,
+/// remainder) is widened with zero coefficients or narrowed to its leading coefficients, all lengths fixed - a
+/// byte string that parses as a proof over the other extension.
+pub fn extension_scripts(b: &[u8], lay: &Layout, base: usize, ext: usize) -> Vec<(String, Vec<Edit>)> {
+    let mut out = vec![];
+    let Some(ef) = lay.fields.iter().find(|f| f.name == "field_extension") else { return out };
+    let is_ext_elem = |name: &str| -> bool {
+        name.starts_with("trace_queries[aux].value[") || name.starts_with("constraint_queries.value[") || name.starts_with("ood.trace_state[") || name.starts_with("ood.lagrange_state[") || name.starts_with("ood.evaluation[") || (name.starts_with("fri.layer[") && name.contains(".value[")) || name.starts_with("fri.remainder[")
+    };
+    let ext_len_fields = ["trace_queries[aux].values_len", "constraint_queries.values_len", "ood.trace_states_len", "ood.lagrange_len", "ood.evaluations_len", "fri.remainder_len"];
+    for target in [1usize, 2, 3] {
+        if target == ext {
+            continue;
+        }
+        let (e_old, e_new) = (ext * base, target * base);
+        let mut nb: Vec<u8> = Vec::with_capacity(b.len() * target / ext + 16);
+        let mut ok = true;
+        for f in lay.fields.iter() {
+            let bytes = &b[f.off..f.off + f.len];
+            if f.name == ef.name {
+                nb.push(target as u8);
+            } else if is_ext_elem(&f.name) && f.len == e_old {
+                if e_new >= e_old {
+                    nb.extend_from_slice(bytes);
+                    nb.extend(std::iter::repeat(0u8).take(e_new - e_old));
+                } else {
+                    nb.extend_from_slice(&bytes[..e_new]);
+                }
+            } else if ext_len_fields.contains(&f.name.as_str()) || (f.name.starts_with("fri.layer[") && f.name.ends_with(".values_len")) {
+                let old = read_le(b, f.off, f.len) as usize;
+                // the out-of-domain components carry one count byte in front of their elements
+                let head = if f.name == "ood.trace_states_len" || f.name == "ood.lagrange_len" { old.min(1) } else { 0 };
+                if (old - head) % e_old != 0 {
+                    ok = false;
+                    break;
+                }
+                let new = (old - head) / e_old * e_new + head;
+                let mut w = vec![0u8; f.len];
+                write_le(&mut w, 0, f.len, new as u64);
+                nb.extend(w);
+            } else {
+                nb.extend_from_slice(bytes);
+            }
+        }
+        if ok {
+            out.push((format!("proof re-encoded for extension degree {target} (every extension element {}, all lengths fixed)", if target > ext { "widened with zero coefficients" } else { "narrowed to its leading coefficients" }), vec![Edit::Replace(nb)]));
         }
     }
     out
